@@ -6,6 +6,7 @@ import (
 	"encoding/hex"
 	"fmt"
 	"net"
+	"os"
 	"sort"
 	"sync"
 	"testing"
@@ -361,12 +362,20 @@ func stateOf(l *dhcp.Lease, gone string, now time.Time) string {
 
 type kentry struct{ k, v []byte }
 
+var noCacheInvariant = os.Getenv("C03_NO_CACHE_INVARIANT") != ""
+
 func dumpKernelMap(m *cebpf.Map) ([]kentry, error) {
 	var out []kentry
 	var cur []byte
 	limit := int(m.MaxEntries()) + 1
 	for i := 0; i <= limit; i++ {
-		next, err := m.NextKeyBytes(cur)
+		var next []byte
+		var err error
+		if cur == nil {
+			next, err = m.NextKeyBytes(nil)
+		} else {
+			next, err = m.NextKeyBytes(cur)
+		}
 		if err != nil {
 			return nil, err
 		}
@@ -459,6 +468,9 @@ func fnv1a64(b []byte) uint64 {
 // address, pool and expiry; vlan_subscriber_pools holds nothing but what the harness itself injected.
 // event = what the step that has just run did; an entry is reported once, at the step that left it behind.
 func (x *run) checkCache(tab leaseTab, event string) {
+	if noCacheInvariant {
+		return // development aid: measure what the probes alone detect
+	}
 	if err := x.dumpMaps(); err != nil {
 		x.harness = err.Error()
 		return
@@ -1124,6 +1136,7 @@ type result struct {
 	nt      bool
 	probes  int
 	tx      int
+	skipped int
 	harness string
 }
 
@@ -1178,5 +1191,5 @@ func execInBubble(rc *bpfnative.Client, tc *tcase) result {
 	if x.tx > 0 {
 		x.cls["case:some-TX"] = true
 	}
-	return result{viol: x.viol, log: x.log, classes: sortedSet(x.cls), nt: x.nt, probes: x.probes, tx: x.tx, harness: x.harness}
+	return result{viol: x.viol, log: x.log, classes: sortedSet(x.cls), nt: x.nt, probes: x.probes, tx: x.tx, skipped: x.skipped, harness: x.harness}
 }
